@@ -32,10 +32,38 @@ def counts(tier):
     return 1500 if tier == "quick" else 6000
 
 
-def mk_call(rng, stmt, i, joined):
+DIALECT_KINDS = {
+    "mysql": ["modifier", "for_update_of"], "postgresql": ["distinct_on", "for_update_of"], "mssql": ["top"],
+    "clickhouse": ["final", "sample", "limit_by", "distinct_on"], "vertica": ["hint"],
+}
+# clause calls of the dialect builders: they take part in the interleavings (text comparison, concrete builder model);
+# the abstract slot machine of Build.lean has no slot for them
+EXTRA_KINDS = {"modifier", "for_update_of", "distinct_on", "top", "final", "sample", "limit_by", "hint"}
+
+
+def mk_call(rng, stmt, i, joined, cls="generic"):
     """returns dict(kind, src, id, tabs, tbl)"""
     x = rng.random()
     fid = "f%d" % i
+    if stmt == "select" and cls in DIALECT_KINDS and rng.random() < 0.4:
+        k = rng.choice(DIALECT_KINDS[cls])
+        if k == "modifier":
+            return {"kind": k, "src": ".modifier(%r)" % rng.choice(["SQL_CALC_FOUND_ROWS", "HIGH_PRIORITY"]), "id": i}
+        if k == "for_update_of":
+            names = rng.sample(["t", "u", "v", "ua", "va"], rng.randint(1, 3))
+            return {"kind": "for_update", "src": ".for_update(nowait=%r, of=(%s))" % (rng.random() < 0.3, "".join("%r, " % n for n in names)),
+                    "id": 0, "extra": True}
+        if k == "distinct_on":
+            return {"kind": k, "src": ".distinct_on(T('t').%s)" % fid, "id": i}
+        if k == "top":
+            return {"kind": k, "src": ".top(%d)" % (i + 1), "id": i}
+        if k == "final":
+            return {"kind": k, "src": ".final()", "id": 0}
+        if k == "sample":
+            return {"kind": k, "src": ".sample(%d)" % (i + 1), "id": i}
+        if k == "limit_by":
+            return {"kind": k, "src": ".limit_by(%d, T('t').%s)" % (i + 1, fid), "id": i}
+        return {"kind": k, "src": ".hint('lbl%d')" % i, "id": i}
     if stmt == "select":
         kinds = ["select", "select", "where", "where", "join", "groupby", "having", "orderby", "limit", "offset", "distinct",
                  "for_update", "with_", "force_index", "use_index", "prewhere"]
@@ -55,9 +83,13 @@ def mk_call(rng, stmt, i, joined):
     if k == "join":
         cand = [x for x in ("u", "v") if x not in joined]
         if not cand:
-            return mk_call(rng, stmt, i, joined)
+            return mk_call(rng, stmt, i, joined, cls)
         tb = cand[0]
         joined.append(tb)
+        if rng.random() < 0.3:
+            # an aliased joined table: another row source than the plain table of the same name
+            return {"kind": k, "src": ".join(T(%r).as_(%r)).on(T('t').k == T(%r).as_(%r).%s)" % (tb, tb + "a", tb, tb + "a", fid),
+                    "id": i, "tbl": tb + "a"}
         return {"kind": k, "src": ".join(T(%r)).on(T('t').k == T(%r).%s)" % (tb, tb, fid), "id": i, "tbl": tb}
     if k in ("groupby", "orderby") and rng.random() < 0.3:
         # a column given by name: a string that may coincide with the alias of a selected term (al0..al5) or not
@@ -92,7 +124,21 @@ def generate(rng, n, tier):
         stmt = rng.choice(["select", "select", "select", "update", "insert"])
         k = rng.randint(3, 7 if tier == "thorough" else 6)
         joined = []
-        calls = [mk_call(rng, stmt, i, joined) for i in range(k)]
+        calls = [mk_call(rng, stmt, i, joined, cls) for i in range(k)]
+        # a statement without its defining clause (select list / SET pair / row) renders as the empty text in every order
+        need = {"select": "select", "update": "set", "insert": "insert"}[stmt]
+        if not any(c["kind"] == need for c in calls):
+            i = len(calls)
+            calls.append({"select": {"kind": "select", "src": ".select(T('t').f%d)" % i, "id": i},
+                          "update": {"kind": "set", "src": ".set(T('t').f%d, %d)" % (i, i), "id": i},
+                          "insert": {"kind": "insert", "src": ".insert(%d, %d)" % (i, i + 100), "id": i}}[stmt])
+        # FOR UPDATE OF names the tables by name: the FROM table, the joined ones (also when the join gives them an alias)
+        jt = [c["tbl"][0] for c in calls if c["kind"] == "join"]
+        for c in calls:
+            if c.get("extra") and c["kind"] == "for_update":
+                names = [x for x in ["t"] + jt + ["x"] if rng.random() < 0.7] or ["t"]
+                rng.shuffle(names)
+                c["src"] = ".for_update(nowait=%r, of=(%s))" % (rng.random() < 0.3, "".join("%r, " % n for n in names))
         withs = [c for c in calls if c["kind"] == "with_"]
         for c in calls:
             if c["kind"] in ("where", "prewhere") and withs and rng.random() < 0.5:
@@ -212,9 +258,11 @@ def examine(case):
             res.findings.append({"sig": {"kind": "clause-order", "cls": case["cls"]},
                                  "what": "clauses appear as %s, canonical order is %s: %s" % (seq, exp, text)})
     # model: the slot state machine on the first interleaving
-    ids = {"t": 0, "u": 1, "v": 2, "w": 3}
+    ids = {"t": 0, "u": 1, "v": 2, "w": 3, "ua": 11, "va": 12}
     mcalls = []
     for c in calls:
+        if c["kind"] in EXTRA_KINDS:
+            continue
         m = {"k": c["kind"], "id": c["id"]}
         if "tabs" in c:
             m["tabs"] = [ids[x] if x in ids else 100 + int(x[3:]) for x in c["tabs"]]
@@ -259,7 +307,7 @@ def slots_of(q, ids):
     try:
         return {
             "selects": [_fid(t) for t in q._selects],
-            "froms": [ids[t._table_name] for t in q._from],
+            "froms": [ids[t.alias or t._table_name] for t in q._from],
             "joins": [_fid(j.criterion) for j in q._joins],
             "wheres": crit_ids(q._wheres), "prewheres": crit_ids(q._prewheres), "havings": crit_ids(q._havings),
             "groupbys": [_fid(t) for t in q._groupbys], "orderbys": [_fid(t) for t, _ in q._orderbys],
